@@ -10,7 +10,7 @@ VERIF = os.path.dirname(os.path.dirname(os.path.abspath(__file__)))
 CLAIMED = {
     "C01": ("other",
             "Static decision of the structural clauses: every recursive cycle of the parser passes a recursion-limit check (stack clause), no loop path can spin without consuming input, entry functions open their root first, pop is guarded. A rule over all CFG paths / call-graph cycles covers nesting combinations no fixture contains.",
-            "Decides recursion depth <= limit (+constant), absence of non-progressing loop paths (including by token kind), root typestate and guarded pop; absence of every other panic site is NOT claimed (the planned panic inventory was not built); assumes limit x frame fits the stack for the default 500 and rowan's documented panics; does not decide termination in general.",
+            "Decides recursion depth <= limit (+constant), absence of non-progressing loop paths (including by token kind), root typestate and guarded pop; the thorough tier adds the reviewed inventory of all 36 panic-capable sites reachable from the parse/lex entries (32 rows, each with a discharge class; a site outside the table is reported), which is conservative and therefore not in the quick tier; assumes limit x frame fits the stack for the default 500 and rowan's documented panics; does not decide termination in general.",
             "call-graph SCC cut-set + CFG must-pass-through / dominator rules over rustc MIR", True),
     "C02": ("other",
             "Token conservation decided on every CFG path: each popped token is moved into a tree sink, error fragments are queued, the pending queue is flushed before the root closes, only two functions write tokens to the builder, Cursor.index has three writers.",
@@ -58,7 +58,7 @@ CLAIMED = {
             "sibling (SIB) must-pass-through rule per match edge over rustc MIR; who-calls on the orphan queue", False),
     "C21": ("other",
             "Every recursive cycle of the compiler's call graph (28 SCCs) is classified: cut by a counting depth guard on every cycle, confined to one definition's syntax tree (bounded by the parser limit), or run only on validated input; cycles that follow names across definitions without a counting guard are reported (two genuine stack overflows found this way, listed as known findings). Diagnostic lists leave the crate only through sorting exits; guard limits are small compile-time constants.",
-            "Decides the stack clause relative to guard limits and the sortedness exits; absence of every other panic site is NOT claimed (the planned panic inventory was not built); ariadne rendering and drop glue are outside; the allow-list of single-definition cycles carries one reason each.",
+            "Decides the stack clause relative to guard limits and the sortedness exits; the thorough tier adds the reviewed inventory of the crate's 88 panic-capable sites (69 rows by function and kind, each with a discharge class; a site outside the table is reported), conservative and therefore not in the quick tier; ariadne rendering and drop glue are outside; the allow-list of single-definition cycles carries one reason each.",
             "call-graph SCC classification with guard cut-sets (dominating success edges) + must-pass-through for sort exits over rustc MIR", True),
     "C03": ("other",
             "The lexer's character classes are folded from the type-checked source (match patterns, guards, const-evaluated lookup tables) over every ASCII code point plus representatives of every non-ASCII class and compared with the October 2021 sets; sibling agreement of the string-body states on line terminators; writers of Cursor.index. Both tiers: the advance() state machine is extracted from HIR by abstract interpretation over a symbolic cursor and the product with a reference machine of the lexical grammar is explored (kind, boundary, error/no-error, lost or twice-read characters; witness inputs); the thorough tier widens the alphabet.",
